@@ -12,7 +12,8 @@ from debian.copyright import Copyright, FilesParagraph, Header
 
 from .global_licensing import REUSE_TOML_VERSION
 
-_SINGLE_ASTERISK_PATTERN = re.compile(r"(?<!\*)\*(?!\*)")
+# An escaped character (kept as it is), or a run of asterisks.
+_ESCAPE_OR_ASTERISKS_PATTERN = re.compile(r"\\.|\*+")
 
 _T = TypeVar("_T")
 
@@ -58,7 +59,9 @@ def _convert_asterisk(path: str) -> str:
     """This solves a semantics difference. A singular asterisk is semantically
     identical to a double asterisk in REUSE.toml.
     """
-    return _SINGLE_ASTERISK_PATTERN.sub("**", path)
+    return _ESCAPE_OR_ASTERISKS_PATTERN.sub(
+        lambda match: "**" if match.group() == "*" else match.group(), path
+    )
 
 
 def _paths_from_paragraph(paragraph: FilesParagraph) -> Union[str, list[str]]:
